@@ -461,7 +461,8 @@ func Nitro(wdt float64, subd int, zeit int, g *GlobalVarsMain, l *NitroSharedVar
 		}
 		g.AKF.Inc()
 
-		if g.SAAT2[g.AKF.Index] <= zeit && g.AUTOMAN {
+		// only an entry of the rotation file can be skipped, not the placeholder that follows the last crop
+		if g.SAAT2[g.AKF.Index] <= zeit && g.AUTOMAN && (g.ERNTE[g.AKF.Index] > 0 || g.ERNTE2[g.AKF.Index] > 0) {
 			if g.ODU[g.AKF.Index-1] == 1 && g.ORGTIME[g.AKF.Index-1] == "H" {
 				g.NAOS[0] = g.NAOS[0] + g.NLAS[g.AKF.Index-1]
 				ln.DODAT = g.Kalender(zeit)
